@@ -412,6 +412,13 @@ def obligations(tier):
         obs.append(guard(configs(tier)[-1], n_iters[0], i))          # the same guard when it also prints why it stops
     for kind in ("ODE", "statio", "nonstatio"):
         obs.append(batch_size_check(kind))
+    # with a validation module attached (uninterpreted; its schedule is C19): the step is the same textbook step and
+    # the tracked-parameter history still stores the iteration's own parameters
+    from contracts import c19
+    for i in range(n_iters[0]):
+        o = c19.val_step(configs(tier)[3], n_iters[0], i, 2)
+        o.name = o.name.replace("C19/_one_iteration/ensures.validation_schedule", "C07/_one_iteration/ensures.reference_step.with_validation_module")
+        obs.append(o)
     for sharding in (False, True):
         for (p_, o_) in ((False, False), (True, False), (False, True), (True, True)):
             obs.append(get_batch_ob(sharding, p_, o_))
